@@ -8,6 +8,8 @@ STATIC_THEOREMS = [
     'SnapraidVerif.Props.C07.sync_ops_never_touch_data',
     'SnapraidVerif.Save.save_atomic',
     'SnapraidVerif.Props.C06.inv_step',
+    'SnapraidVerif.Props.C07.resume_reaches_clean',
+    'SnapraidVerif.Props.C07.resume_after_any_history',
 ]
 
 def data_digest(a):
